@@ -353,6 +353,16 @@ func (g *G) genAction(f *FlowSpec, nd *nodeDraft, loc J) J {
 		g.localize(f, loc, au, "body", []string{body}, func(lang string, _ int) string { return "body " + lang + " @contact.name" })
 	case "start_session":
 		fl := g.S.Flows[t.Pick("whichflow", len(g.S.Flows))]
+		// sessions are mostly triggered into flows written for it
+		var flavoured []*FlowSpec
+		for _, x := range g.S.Flows {
+			if x.ParentFlavor {
+				flavoured = append(flavoured, x)
+			}
+		}
+		if len(flavoured) > 0 && t.Chance("start_flavoured", 2, 3) {
+			fl = flavoured[t.Pick("whichflavoured", len(flavoured))]
+		}
 		a["flow"] = J{"uuid": fl.UUID, "name": fl.Name}
 		g.otherContacts(a)
 		a["exclusions"] = J{}
